@@ -13,6 +13,7 @@ from wv.util import tempdir
 from wv import corpus, gen
 from wv.dump import dump, diff
 from wv.props import c06
+from wv.refquery import ref_eval, to_whoosh
 
 PROP = "C18"
 LEVEL = "exploration"
@@ -66,11 +67,20 @@ def case_s(draw):
                 for doc in (op[1] if op[0] == "group" else [op[1]] if op[0] in ("add", "upd") else []):
                     if doc.get("g") == "g3":
                         doc["g"] = "g3" + "x" * 300
+    c_column = draw(st.booleans())
+    if c_column:
+        # a column-only field: per-document data of a field that has no postings
+        for ops in epochs:
+            for op in ops:
+                for doc in (op[1] if op[0] == "group" else [op[1]] if op[0] in ("add", "upd") else []):
+                    if doc.get("n") is not None and doc["n"] % 3:
+                        doc["c"] = "c%d" % doc["n"]
     return {
         "epochs": epochs,
         "configs": draw(st.lists(config_s(), min_size=3, max_size=3)),
         "schema": {"t_vector": draw(st.booleans()), "g_sortable": draw(st.booleans()),
-                   "n_sortable": draw(st.booleans()), "t_boost": draw(st.sampled_from([1.0, 2.0]))},
+                   "n_sortable": draw(st.booleans()), "t_boost": draw(st.sampled_from([1.0, 2.0])),
+                   "c_column": c_column},
     }
 
 
@@ -221,6 +231,7 @@ def program_s(draw):
         else:
             steps.append([kind])
     return {"committed": committed, "steps": steps, "limit": draw(st.integers(1, 6)),
+            "queries": draw(st.lists(gen.query_s(max_leaves=4), min_size=3, max_size=3)),
             "store": draw(st.sampled_from(["ram", "file"])),
             "schema": {"t_vector": False, "g_sortable": draw(st.booleans()), "n_sortable": draw(st.booleans()), "t_boost": 1.0}}
 
@@ -266,6 +277,14 @@ def run_buffered(case, out):
                 ek = sorted(m["k"] for m in model if pred(m))
                 if gk != ek:
                     out.fail("c18.buffered_searcher_results_differ:" + where, {"query": repr(probe), "expected": ek, "got": gk})
+                    return False
+            # generated queries (all public query types) against the reference evaluator over the model
+            for qj in case.get("queries", ()):
+                lo, hi = ref_eval(qj, model)
+                gk = set(h["k"] for h in searcher.search(to_whoosh(qj), limit=None))
+                if not (lo <= gk <= hi):
+                    out.fail("c18.buffered_searcher_query_differs:" + where,
+                             {"query": qj, "missing": sorted(lo - gk), "extra": sorted(gk - hi)})
                     return False
             return True
 
